@@ -465,18 +465,16 @@ def digitCountU128 (feats : Features) (value radix : Nat) : Res Nat :=
   else if radix = 16 then .ok (fastLog2 128 value / 4 + 1)
   else if radix = 32 then .ok (fastLog2 128 value / 5 + 1)
   else if value ≤ 2 ^ 64 - 1 then naiveCount 64 radix (value % 2 ^ 64)
-  else do
-    let step := u64Step feats radix
-    let (value, _) ← u128Divrem feats value radix
-    if value ≤ 2 ^ 64 - 1 then
-      let c ← naiveCount 64 radix (value % 2 ^ 64)
-      pure (step + c)
+  else
+    -- `let step = u64_step(radix); let (value, _) = u128_divrem(self, radix); let mut count = step;`
+    u128Divrem feats value radix >>= fun q1 =>
+    if q1.1 ≤ 2 ^ 64 - 1 then
+      naiveCount 64 radix (q1.1 % 2 ^ 64) >>= fun c => .ok (u64Step feats radix + c)
     else
-      let (value, _) ← u128Divrem feats value radix
-      if value ≠ 0 then
-        let c ← naiveCount 64 radix (value % 2 ^ 64)
-        pure (step + step + c)
-      else pure (step + step)
+      u128Divrem feats q1.1 radix >>= fun q2 =>
+      if q2.1 ≠ 0 then
+        naiveCount 64 radix (q2.1 % 2 ^ 64) >>= fun c => .ok (u64Step feats radix + u64Step feats radix + c)
+      else .ok (u64Step feats radix + u64Step feats radix)
 
 def digitCount (feats : Features) (bits value radix : Nat) : Res Nat :=
   if bits = 128 then digitCountU128 feats value radix else digitCountSmall bits value radix
@@ -542,14 +540,12 @@ def writeDigits (bits value radix : Nat) (buf : Buf) (index : Nat) : Res (Buf ×
    if y.1 < radix % 2 ^ bits then put1 y.2.1 y.2.2 (y.1 % 2 ^ 32)
    else put2 radix y.2.1 y.2.2 (2 * y.1 % usz))
 
-/-- `write_step_digits` -/
-def writeStepDigits (bits value radix : Nat) (buf : Buf) (index step : Nat) : Res (Buf × Nat) := do
-  let start := index
-  let (buf, index) ← writeDigits bits value radix buf index
-  let end_ := start - step   -- saturating_sub
-  -- `&mut i!(buffer[end..index])`: unchecked range
-  if end_ ≤ index ∧ index ≤ buf.length then
-    .ok (buf.take end_ ++ List.replicate (index - end_) 48 ++ buf.drop index, end_)
+/-- `write_step_digits`: `write_digits`, then `buffer[end..index].fill(b'0')` with `end = start.saturating_sub(step)`
+(an unchecked range) -/
+def writeStepDigits (bits value radix : Nat) (buf : Buf) (index step : Nat) : Res (Buf × Nat) :=
+  writeDigits bits value radix buf index >>= fun w =>
+  if index - step ≤ w.2 ∧ w.2 ≤ w.1.length then
+    .ok (w.1.take (index - step) ++ List.replicate (w.2 - (index - step)) 48 ++ w.1.drop w.2, index - step)
   else .fault
 
 /-- `get_table` (`table_radix.rs` / `table_binary.rs`): which radices have a table under the feature set -/
@@ -568,29 +564,24 @@ def algorithm (bits value radix : Nat) (buffer : Buf) : Res (Buf × Nat) :=
   Res.ok (w.1 ++ buffer.drop count, count)
 
 /-- `algorithm_u128::<FORMAT, MASK, SHIFT>(value, table, buffer)` -/
-def algorithmU128 (feats : Features) (value radix : Nat) (buffer : Buf) : Res (Buf × Nat) := do
+def algorithmU128 (feats : Features) (value radix : Nat) (buffer : Buf) : Res (Buf × Nat) :=
   if ¬ validRadix feats radix then .panic else
   if ¬ (2 ≤ radix ∧ radix ≤ 36) then .panic else
   if tableLen radix < radix * radix * 2 % 2 ^ 32 then .panic else
   if value ≤ 2 ^ 64 - 1 then algorithm 64 (value % 2 ^ 64) radix buffer else
-  let count ← digitCountU128 feats value radix
+  digitCountU128 feats value radix >>= fun count =>
   if ¬ count ≤ buffer.length then .panic else
-  let sub := buffer.take count
-  let rest := buffer.drop count
-  let step := u64Step feats radix
-  let (value, low) ← u128Divrem feats value radix
-  let (sub, index) ← writeStepDigits 64 low radix sub count step
-  if value ≤ 2 ^ 64 - 1 then
-    let (sub, _) ← writeDigits 64 (value % 2 ^ 64) radix sub index
-    pure (sub ++ rest, count)
+  -- `let buffer = &mut buffer[..count]`; `let (value, low) = u128_divrem(value, radix)`
+  u128Divrem feats value radix >>= fun q1 =>
+  writeStepDigits 64 q1.2 radix (buffer.take count) count (u64Step feats radix) >>= fun w1 =>
+  if q1.1 ≤ 2 ^ 64 - 1 then
+    writeDigits 64 (q1.1 % 2 ^ 64) radix w1.1 w1.2 >>= fun w2 => .ok (w2.1 ++ buffer.drop count, count)
   else
-    let (value, mid) ← u128Divrem feats value radix
-    let (sub, index) ← writeStepDigits 64 mid radix sub index step
-    if index ≠ 0 then
-      let (sub, _) ← writeDigits 64 (value % 2 ^ 64) radix sub index
-      pure (sub ++ rest, count)
-    else
-      pure (sub ++ rest, count)
+    u128Divrem feats q1.1 radix >>= fun q2 =>
+    writeStepDigits 64 q2.2 radix w1.1 w1.2 (u64Step feats radix) >>= fun w2 =>
+    if w2.2 ≠ 0 then
+      writeDigits 64 (q2.1 % 2 ^ 64) radix w2.1 w2.2 >>= fun w3 => .ok (w3.1 ++ buffer.drop count, count)
+    else .ok (w2.1 ++ buffer.drop count, count)
 
 /-- `Radix::radix` -/
 def radixWrite (feats : Features) (bits value radix : Nat) (buffer : Buf) : Res (Buf × Nat) :=
